@@ -170,6 +170,8 @@ ParameterList DownhillSimplexMethod::getPSum()
   // ... and initializes it.
   for (size_t j = 0; j < ndim; j++)
   {
+    // This is a sum of coordinates, not a point: the parameters' constraints do not apply to it.
+    pSum[j].removeConstraint();
     double sum = 0.;
     for (size_t i = 0; i < mpts; i++)
     {
